@@ -1,6 +1,6 @@
 #!/bin/bash
 # usage: with_patch.sh <patch.diff> <command...>   applies a patch to /repo, runs the command, restores /repo (tracked files)
-P=$1; shift
+P=$(realpath "$1"); shift
 git -C /repo diff --quiet HEAD || { echo "with_patch: /repo has uncommitted changes"; exit 9; }
 git -C /repo apply --3way "$P" >/dev/null 2>&1 || git -C /repo apply "$P" || { echo "with_patch: patch does not apply"; git -C /repo checkout -q HEAD -- .; exit 8; }
 "$@"; rc=$?
